@@ -260,6 +260,8 @@ func UnRegisterCandidate(native *native.NativeService) ([]byte, error) {
 		return utils.BYTE_FALSE, fmt.Errorf("unRegisterCandidate, peerPubkey format error: %v", err)
 	}
 	native.GetCacheDB().Delete(utils.ConcatKey(contract, []byte(PEER_APPLY), peerPubkeyPrefix))
+	//approvals given to the withdrawn request must not count for a later registration of the same key
+	ClearConsensusSigns(native, APPROVE_CANDIDATE, []byte(peer.PeerPubkey))
 	native.AddNotify(
 		&event.NotifyEventInfo{
 			ContractAddress: utils.NodeManagerContractAddress,
@@ -292,7 +294,9 @@ func ApproveCandidate(native *native.NativeService) ([]byte, error) {
 	}
 
 	//check consensus signs
-	ok, err := CheckConsensusSigns(native, APPROVE_CANDIDATE, []byte(params.PeerPubkey), params.Address)
+	//approvals are collected per pending request (under the public key string of the request), whatever hex case
+	//the approver used
+	ok, err := CheckConsensusSigns(native, APPROVE_CANDIDATE, []byte(peer.PeerPubkey), params.Address)
 	if err != nil {
 		return utils.BYTE_FALSE, fmt.Errorf("approveCandidate, CheckConsensusSigns error: %v", err)
 	}
